@@ -37,86 +37,7 @@ VARIABLES sk, shadow, flips,
 dvars == <<sk, shadow, flips, obj>>
 
 Live == DOMAIN sk
-Max2(a, b) == IF a > b THEN a ELSE b
-Min2(a, b) == IF a < b THEN a ELSE b
-SumSeq(s) == FoldLeft(LAMBDA a, b : a + b, 0, s)
-
-(* kll_helper::int_cap_aux_aux / level_capacity / compute_total_capacity (depth <= 19 is 32-bit safe) *)
-IntCapAux(k, depth) == LET tmp == ((2 * k) * 2^depth) \div 3^depth IN (tmp + 1) \div 2
-Cap(k, nl, h) == Max2(M, IntCapAux(k, nl - h - 1))       \* h is 0-based
-TotalCap(k, nl) == SumSeq([h \in 1..nl |-> Cap(k, nl, h - 1)])
-\* kll_helper::ub_on_num_levels
-UbLevels(n) == IF n = 0 THEN 1 ELSE 1 + (CHOOSE e \in 0..30 : 2^e <= n /\ n < 2^(e + 1))
-
-Sizes(lv) == [h \in 1..Len(lv) |-> Len(lv[h])]
-TotalItems(lv) == SumSeq(Sizes(lv))
-SortAsc(s) == SortSeq(s, LAMBDA x, y : x < y)
-RECURSIVE MergeSorted(_, _)
-MergeSorted(a, b) == IF a = <<>> THEN b ELSE IF b = <<>> THEN a
-   ELSE IF Head(a) < Head(b) THEN <<Head(a)>> \o MergeSorted(Tail(a), b)
-   ELSE <<Head(b)>> \o MergeSorted(a, Tail(b))
-\* keep the elements whose 0-based index has parity p (s has even length)
-Pick(s, p) == [i \in 1..(Len(s) \div 2) |-> s[2 * i - 1 + p]]
-\* randomly_halve_up keeps 0-based parity 1 - coin; randomly_halve_down keeps parity coin
-HalveUp(s, c) == Pick(s, IF HalveUpParityFlip = 1 THEN 1 ELSE 1 - c)
-HalveDown(s, c) == Pick(s, c)
-
-\* compaction of level h (0-based) of lv, whose level above exists: the core shared by both compress routines
-CompactLevel(lv, h, c) ==
-  LET raw == lv[h + 1]
-      odd == Len(raw) % 2 = 1
-      left == IF odd THEN <<Head(raw)>> ELSE <<>>
-      adj0 == IF odd THEN Tail(raw) ELSE raw
-      adj == IF h = 0 THEN SortAsc(adj0) ELSE adj0
-      above == lv[h + 2]
-      up == IF above = <<>> THEN HalveUp(adj, c) ELSE MergeSorted(HalveDown(adj, c), above)
-  IN [lv EXCEPT ![h + 1] = left, ![h + 2] = up]
-
-(* compress_while_updating: lowest level at or over capacity; a new top level is added first when needed *)
-FindLevel(k, lv) == CHOOSE h \in 0..(Len(lv) - 1) : /\ Len(lv[h + 1]) >= Cap(k, Len(lv), h)
-                                                    /\ \A g \in 0..(h - 1) : Len(lv[g + 1]) < Cap(k, Len(lv), g)
-CompressWhileUpdating(k, lv, c) ==
-  LET h == FindLevel(k, lv)
-      lv1 == IF h = Len(lv) - 1 THEN Append(lv, <<>>) ELSE lv
-  IN CompactLevel(lv1, h, c)
-\* internal_update + placement of the item: [lv, used]; the buffer is full iff levels_[0] == 0
-Full(k, lv) == TotalItems(lv) = TotalCap(k, Len(lv))
-Insert(k, lv, v, c) ==
-  LET lv2 == IF Full(k, lv) THEN CompressWhileUpdating(k, lv, c) ELSE lv
-  IN [lv |-> [lv2 EXCEPT ![1] = <<v>> \o @], used |-> IF Full(k, lv) THEN 1 ELSE 0]
-
-(* kll_helper::general_compress over the work levels `in`; coins cs consumed from position ci + 1 *)
-CoinAt(cs, i) == IF i <= Len(cs) THEN cs[i] ELSE 0
-RECURSIVE GC(_, _, _, _, _, _, _, _, _)
-GC(k, in, out, level, nl, count, target, cs, ci) ==
-  LET in1 == IF level = nl - 1 /\ Len(in) < level + 2 THEN Append(in, <<>>) ELSE in
-      raw == in1[level + 1]
-      pop == Len(raw)
-      asis == count < target \/ pop < Cap(k, nl, level)
-      half == (pop - (pop % 2)) \div 2
-      cl == CompactLevel(in1, level, CoinAt(cs, ci + 1))
-      in2 == IF asis THEN in1 ELSE cl
-      out2 == Append(out, IF asis THEN raw ELSE cl[level + 1])
-      count2 == IF asis THEN count ELSE count - half
-      grew == ~asis /\ level = nl - 1
-      nl2 == IF grew THEN nl + 1 ELSE nl
-      target2 == IF grew THEN target + Cap(k, nl + 1, 0) ELSE target
-      ci2 == IF asis THEN ci ELSE ci + 1
-  IN IF level = nl2 - 1 THEN [lv |-> out2, used |-> ci2]
-     ELSE GC(k, in2, out2, level + 1, nl2, count2, target2, cs, ci2)
-GeneralCompress(k, in, cs, ci) == GC(k, in, <<>>, 0, Len(in), TotalItems(in), TotalCap(k, Len(in)), cs, ci)
-
-(* kll_sketch::merge on the levels: [lv, used] *)
-LevelOr(lv, h) == IF h <= Len(lv) THEN lv[h] ELSE <<>>
-RECURSIVE Replay(_, _, _, _, _)
-Replay(k, lv, xs, cs, ci) ==   \* other's level 0, in buffer order, through internal_update
-  IF xs = <<>> THEN [lv |-> lv, used |-> ci]
-  ELSE LET r == Insert(k, lv, Head(xs), CoinAt(cs, ci + 1)) IN Replay(k, r.lv, Tail(xs), cs, ci + r.used)
-MergeLevels(k, a, b, cs) ==
-  LET r == Replay(k, a, b[1], cs, 0)
-      prov == Max2(Len(r.lv), Len(b))
-      work == [h \in 1..prov |-> IF h = 1 THEN r.lv[1] ELSE MergeSorted(LevelOr(r.lv, h), LevelOr(b, h))]
-  IN IF Len(b) >= 2 THEN GeneralCompress(k, work, cs, r.used) ELSE r
+INSTANCE KllMech      \* the mechanism operators (IntCapAux, Cap, CompactLevel, Insert, GeneralCompress, MergeLevels, ...)
 
 -----------------------------------------------------------------------------
 (* ghost bookkeeping shared with the contract *)
